@@ -4,6 +4,7 @@ import (
 	"sort"
 
 	hydrapb "github.com/hydraide/hydraide/sdk/go/hydraidego/v3/hydraidepbgo"
+	"github.com/hydraide/hydraide/app/core/hydra/swamp/bucket/valuecanon"
 	"github.com/hydraide/hydraide/app/core/hydra/swamp/treasure"
 	"google.golang.org/protobuf/types/known/timestamppb"
 )
@@ -368,6 +369,16 @@ func evaluateBytesFieldFilterAgainstMap(decoded map[string]interface{}, filter *
 
 	if fieldVal == nil {
 		return false
+	}
+
+	// EQUAL follows the one canonical value-equality rule (package valuecanon) that the
+	// auto-built field indexes use, so that a query gives the same answer whether it is served
+	// by a full scan or through an index: no lossy int<->float conversion (0.5 is not equal to
+	// 0, 2^53+1 is not equal to the float64 2^53), cross-kind integers compare by value.
+	if op == hydrapb.Relational_EQUAL {
+		if cv, ok := compareValueToAny(filter); ok {
+			return valuecanon.Equal(valuecanon.Canonicalize(fieldVal), valuecanon.Canonicalize(cv))
+		}
 	}
 
 	switch cv := filter.GetCompareValue().(type) {
